@@ -15,7 +15,7 @@ import sketchnu.countmin as cmmod
 
 RULE = (
     "Fault enumeration over crash points of save(): for each of the five classes and 2 (quick) / 6 (thorough) seed-derived shapes with random "
-    "histories (files of 0.6-20 kB), EVERY strict prefix length 0..len-1 of the saved file (saved to a fresh path, or over an existing larger sketch file, or over arbitrary longer content) is written to disk under rotating names (part.npz, full.part, full.npz.tmp, full) next to the complete full.npz and loaded through the class "
+    "histories (files of 0.6-20 kB), EVERY strict prefix length 0..len-1 of the saved file (saved to a fresh path, or over an existing larger sketch file, or over arbitrary longer content) is written to disk under rotating names (part.npz, full.part, full.npz.tmp, full) next to the complete full.npz and loaded (the argument given as path string, pathlib.Path, open binary file or non-seekable stream, in rotation) through the class "
     "loader (with shared_memory False, and True for one shape per class) and, for count-min, through countmin.load; the complete file must load "
     "and equal the saved sketch (parameters, tables, bookkeeping, queries). Oracle: every strict prefix raises an exception (any type); returning any "
     "object is a violation. Non-trivial: a prefix that ends inside a member's data, a later local header or the central directory / end record "
@@ -62,6 +62,48 @@ def build(cfg, rng):
     if cfg["kind"] != "hll":
         sk.n_added_records[1] = np.uint64(int(rng.integers(0, 1000)))
     return sk
+
+
+class _Pipe:
+    """a non-seekable binary stream (what a pipe or socket looks like)"""
+
+    def __init__(self, data):
+        import io
+
+        self._b = io.BytesIO(data)
+
+    def read(self, n=-1):
+        return self._b.read(n)
+
+    def readinto(self, b):
+        return self._b.readinto(b)
+
+    def readable(self):
+        return True
+
+    def seekable(self):
+        return False
+
+    def seek(self, *a):
+        import io
+
+        raise io.UnsupportedOperation("seek")
+
+    def tell(self):
+        import io
+
+        raise io.UnsupportedOperation("tell")
+
+    def close(self):
+        self._b.close()
+
+    closed = False
+
+    def __enter__(self):
+        return self
+
+    def __exit__(self, *a):
+        self.close()
 
 
 def regions(data):
@@ -114,10 +156,26 @@ def _task(arg):
             part = names[n % len(names)]
             with open(part, "wb") as f:
                 f.write(data[:n])
+            # the argument as a path string, a pathlib.Path, an open (seekable) file, or a non-seekable stream
+            form = (n // len(names)) % 4
+            fh = None
             try:
-                obj = loader(part, shm)
+                if form == 0:
+                    arg = part
+                elif form == 1:
+                    import pathlib
+
+                    arg = pathlib.Path(part)
+                elif form == 2:
+                    arg = fh = open(part, "rb")
+                else:
+                    arg = fh = _Pipe(data[:n])
+                obj = loader(arg, shm)
             except Exception:
                 obj = None
+            finally:
+                if fh is not None:
+                    fh.close()
             region = "in_first_header" if n <= first_end else ("in_central_directory" if n >= cd_start else "in_member_data_or_headers")
             cls[region] += 1
             os.unlink(part)
